@@ -53,6 +53,7 @@ Inductive hop :=
 | OFromProof (root k : bytes) (proof : list item)
 | OTraverse (ns : nibbles)
 | OTraverseFrom (pre seg : nibbles)       (* traverse(pre) then traverse_from(that node, seg) *)
+| OTraverseFromReads (pre seg : nibbles)  (* number of database reads made by that traverse_from *)
 | ORootNode
 | ODrop (h : bytes)                       (* the harness removes a database entry *)
 | OPut (h body : bytes)                   (* the harness supplies a database entry (retry loops) *)
@@ -128,6 +129,13 @@ Fixpoint hstep (t : trie) (o : hop) {struct o} : trie * obs :=
           let '(r2, _) := traverse_from BLANK_NODE_HASH (h_raw parent) seg t in
           (t, res_obs hnode_obs r2)
       | Err e => (t, OL [exn_obs e])
+      end
+  | OTraverseFromReads pre seg =>
+      let '(r, _) := traverse BLANK_NODE_HASH pre t in
+      match r with
+      | Ok parent =>
+          (t, onat (length (traverse_from_reads BLANK_NODE_HASH (traverse_fuel seg) (h_raw parent) seg t)))
+      | Err e => (t, ONone)
       end
   | ORootNode => let '(r, _) := root_node BLANK_NODE_HASH t in (t, res_obs hnode_obs r)
   | ODrop h => (drop_entry t h, ONone)
